@@ -208,6 +208,18 @@ P["C19"] = dict(
     ref="DESIGN.md 3 C19",
     note="Trusted base: TLC 1.8.0; the Go runtime's panic / fatal-error reporting; inputs <= ~64 kB.")
 
+P["C20"] = dict(
+    level="exploration", engine="registry",
+    technique="TLA+ model of the lock-protected registries (Registry.tla) checked by TLC over all interleavings; recorded "
+              "histories of the real registries decided linearizable by TLC (RegistryTrace.tla); shared stateless "
+              "components compared with sequential results under the Go race detector",
+    text="TLC verifies the design (mutual exclusion, linearization, termination) for 3 processes; histories of real "
+         "concurrent Add / Lookup calls are validated by TLC with the linearization point as a silent step; data-race "
+         "freedom and result equality of the shared stateless components are observed with -race on the schedules "
+         "that occur (several GOMAXPROCS / goroutine counts), which is observation, not proof.",
+    ref="DESIGN.md 3 C20",
+    note="Trusted base: TLC 1.8.0; the Go race detector and scheduler; results depend on the schedules that occur.")
+
 NOT_YET = {}
 
 
